@@ -86,6 +86,11 @@ pub struct Case {
     /// one default page of the factories' listings
     #[serde(default)]
     pub many_children: bool,
+    /// twenty-eight more registered pairs and vaults instead (names sorting first): each factory then has
+    /// 31 children, one more than the single page of 30 `ForwardFees` asks for, and one observed pair
+    /// and one observed vault lie beyond that page
+    #[serde(default)]
+    pub overfull: bool,
 }
 
 fn take_rate() -> BoxedStrategy<TakeRate> {
@@ -148,10 +153,10 @@ impl Hub {
             w.register_native_decimals(d, 6);
         }
         let assets = vec![native("uwhale"), native("uusdc"), token(&tokx), native("uatom")];
-        if c.many_children {
+        if c.many_children || c.overfull {
             w.register_native_decimals("aaz", 6);
-            for i in 0..11 {
-                let d = format!("aaa{}", (b'a' + i as u8) as char);
+            for i in 0..(if c.overfull { 28 } else { 11 }) {
+                let d = if c.overfull { format!("aab{}{}", (b'a' + (i / 26) as u8) as char, (b'a' + (i % 26) as u8) as char) } else { format!("aaa{}", (b'a' + i as u8) as char) };
                 w.register_native_decimals(&d, 6);
                 w.create_pair([native(&d), native("aaz")], pool_fee([0, 0, 0]), PairType::ConstantProduct).map_err(|e| format!("filler pair {i}: {e}"))?;
                 w.create_vault(&native(&d), vault_fee([0, 0, 0])).map_err(|e| format!("filler vault {i}: {e}"))?;
@@ -335,6 +340,29 @@ impl Hub {
             .unwrap_or(0)
     }
 
+    /// membership of the three observed pairs / vaults in the first page of 30 of their factory's listing
+    fn first_page_membership(&self) -> ([bool; 3], [bool; 3]) {
+        use white_whale_std::pool_network::factory as pf;
+        use white_whale_std::vault_network::vault_factory as vfm;
+        let mut p = [true; 3];
+        let mut v = [true; 3];
+        if let (Some(f), Some(vf)) = (self.w.factory.clone(), self.w.vault_factory.clone()) {
+            let r: Result<pf::PairsResponse, _> = self.w.query(&f, &pf::QueryMsg::Pairs { start_after: None, limit: Some(30) });
+            if let Ok(r) = r {
+                for i in 0..3 {
+                    p[i] = r.pairs.iter().any(|x| x.contract_addr == self.pairs[i].as_str());
+                }
+            }
+            let r: Result<vfm::VaultsResponse, _> = self.w.query(&vf, &vfm::QueryMsg::Vaults { start_after: None, limit: Some(30) });
+            if let Ok(r) = r {
+                for i in 0..3 {
+                    v[i] = r.vaults.iter().any(|x| x.vault == self.vaults[i].as_str());
+                }
+            }
+        }
+        (p, v)
+    }
+
     fn pair_pending(&self, i: usize) -> Vec<(usize, u128)> {
         let r: Result<pair::ProtocolFeesResponse, _> = self.w.query(
             &self.pairs[i],
@@ -452,7 +480,7 @@ impl Check for FeePipeline {
         "fee_pipeline_new_epoch"
     }
     fn rule(&self) -> &'static str {
-        "full hub: 3 constant-product pairs (uwhale/uusdc, uwhale/cw20, uusdc/uatom), 3 vaults (uwhale, uusdc, cw20), pool router with generated initial routes to the distribution asset (1-hop, 1-hop cw20, 2-hop), collector, distributor (grace 1..4), lair; up to 40/100 operations {swaps and tiny swaps (fee states 0 / <= 1000 / above), router flash loans and tiny router flash loans (vault fee states 1 / 999 / 1000 / 1001 / a few hundred), take-rate changes in {inactive, 0, 1e-18, 0.1, ~1, random} with/without DAO address, add/remove route, disable swaps on a pair (simulation passes, execution fails), de-register a pair, drain a pair's liquidity, donations to the collector, ForwardFees by non-distributors, claims, grace-period increases, NewEpoch on time or late}. Oracle per NewEpoch: failure => world snapshot unchanged; success => every registered pair's pending entries above 1000 and every vault's pending fees are 0 and what left them arrived in the collector, each non-distribution asset in the collector is either untouched (+collected) or fully swapped (0), the pool router holds nothing, DAO delta == floor(rate * (DAO delta + distributor inflow)) iff the take rate is active (and TakeRateHistory records it) else 0, distributor inflow == new epoch total - rolled-over remainder, the collector's distribution-asset balance is 0 afterwards. ForwardFees from anyone but the distributor is rejected. Non-trivial: a successful NewEpoch with non-zero collected fees from >= 1 pair and >= 1 vault."
+        "full hub: 3 constant-product pairs (uwhale/uusdc, uwhale/cw20, uusdc/uatom), 3 vaults (uwhale, uusdc, cw20), pool router with generated initial routes to the distribution asset (1-hop, 1-hop cw20, 2-hop), collector, distributor (grace 1..4), lair; up to 40/100 operations {swaps and tiny swaps (fee states 0 / <= 1000 / above), router flash loans and tiny router flash loans (vault fee states 1 / 999 / 1000 / 1001 / a few hundred), take-rate changes in {inactive, 0, 1e-18, 0.1, ~1, random} with/without DAO address, add/remove route, disable swaps on a pair (simulation passes, execution fails), de-register a pair, drain a pair's liquidity, donations to the collector, ForwardFees by non-distributors, claims, grace-period increases, NewEpoch on time or late}; one hub in eight has 14 children per factory (more than a default page), one in twenty-five has 31 (more than the page of 30 ForwardFees asks for: an observed pair and vault beyond it keep their fees — listed finding forward-fees-single-page — and the rest of the oracle goes on). Oracle per NewEpoch: failure => world snapshot unchanged; success => every registered pair's pending entries above 1000 and every vault's pending fees are 0 and what left them arrived in the collector, each non-distribution asset in the collector is either untouched (+collected) or fully swapped (0), the pool router holds nothing, DAO delta == floor(rate * (DAO delta + distributor inflow)) iff the take rate is active (and TakeRateHistory records it) else 0, distributor inflow == new epoch total - rolled-over remainder, the collector's distribution-asset balance is 0 afterwards. ForwardFees from anyone but the distributor is rejected. Non-trivial: a successful NewEpoch with non-zero collected fees from >= 1 pair and >= 1 vault."
     }
     fn strategy(&self, tier: Tier) -> BoxedStrategy<Case> {
         let max_ops = tier.pick(40usize, 100usize);
@@ -463,15 +491,17 @@ impl Check for FeePipeline {
             1u64..=4,
             prop::collection::vec(op(), 3..max_ops),
             proptest::bool::weighted(0.12),
+            proptest::bool::weighted(0.04),
         )
-            .prop_map(|(pf, vf, routes, grace, ops, many_children)| Case {
+            .prop_map(|(pf, vf, routes, grace, ops, many_children, overfull)| Case {
                 // protocol fee never zero-only so that the pipeline has something to move
                 pair_fees: [Uint128::new(pf[0].max(1_000_000_000_000_000)), Uint128::new(pf[1]), Uint128::new(pf[2])],
                 vault_fees: [Uint128::new(vf[0].max(1_000_000_000_000_000)), Uint128::new(vf[1]), Uint128::zero()],
                 routes,
                 grace,
                 ops,
-                many_children,
+                many_children: many_children && !overfull,
+                overfull,
             })
             .boxed()
     }
@@ -484,6 +514,9 @@ impl Check for FeePipeline {
     fn test(&self, c: &Case, rec: &Rec) -> TResult {
         if c.many_children {
             rec.class("hub_with_more_children_than_one_listing_page");
+        }
+        if c.overfull {
+            rec.class("hub_with_31_children_per_factory");
         }
         let mut h = Hub::build(c).map_err(|e| Fail::new(format!("world build failed: {e}")))?;
         let mut registered = [true; 3];
@@ -702,6 +735,8 @@ impl Check for FeePipeline {
                     let cfg = h.collector_config().map_err(Fail::new)?;
                     let pend_pairs: Vec<Vec<(usize, u128)>> = (0..3).map(|i| h.pair_pending(i)).collect();
                     let pend_vaults: Vec<u128> = (0..3).map(|i| h.vault_pending(i)).collect();
+                    // which observed children are on the one page of 30 that ForwardFees asks each factory for
+                    let (on_page_pair, on_page_vault) = h.first_page_membership();
                     let col_before: Vec<u128> = h.assets.iter().map(|a| h.w.bal(a, &h.collector)).collect();
                     let dist_before = h.w.bank(&h.dist, "uwhale");
                     let dao_before = h.w.bank(&h.dao, "uwhale");
@@ -762,7 +797,16 @@ impl Check for FeePipeline {
                         for (j, (k, before_amt)) in pend_pairs[i].iter().enumerate() {
                             let a = after[j].1;
                             let added = agg_fees[i][*k];
-                            if registered[i] {
+                            if registered[i] && !on_page_pair[i] && *before_amt > 0 && a == *before_amt + added {
+                                // listed finding: a registered pair beyond the 30th entry of the factory's listing is
+                                // not visited by ForwardFees (one fixed page per factory); the entry stays pending
+                                if *before_amt > pair_threshold() {
+                                    rec.known_or_fail(
+                                        "forward-fees-single-page",
+                                        format!("step {step}: registered pair {i} lies beyond the first 30 entries of the pool factory's listing and kept its pending {before_amt} of asset {k} across NewEpoch"),
+                                    )?;
+                                }
+                            } else if registered[i] {
                                 // An entry above the pool's collection threshold must be collected; a smaller one is
                                 // either collected or left as it was (the statement gives no number for the
                                 // threshold; the pool's own constant, read through a hook, bounds what may stay behind).
@@ -784,6 +828,13 @@ impl Check for FeePipeline {
                     }
                     for i in 0..3 {
                         let a = h.vault_pending(i);
+                        if !on_page_vault[i] && pend_vaults[i] > 0 && a == pend_vaults[i] + loan_fee[i] {
+                            rec.known_or_fail(
+                                "forward-fees-single-page",
+                                format!("step {step}: registered vault {i} lies beyond the first 30 entries of the vault factory's listing and kept its pending {} across NewEpoch", pend_vaults[i]),
+                            )?;
+                            continue;
+                        }
                         ensure!(
                             a == loan_fee[i],
                             "step {step}: vault {i} owes {a} after NewEpoch (was {}; the enclosing loan's own protocol fee is {})",
@@ -821,7 +872,8 @@ impl Check for FeePipeline {
                             // the asset behind. (None of these conditions changes inside NewEpoch:
                             // registrations and routes are untouched and the constant-product
                             // simulation succeeds for any positive reserves.)
-                            let listed = (0..3).any(|i| registered[i] && h.pair_assets[i].contains(&k)) || h.vault_assets.contains(&k);
+                            let listed = (0..3).any(|i| registered[i] && on_page_pair[i] && h.pair_assets[i].contains(&k))
+                                || (0..3).any(|i| on_page_vault[i] && h.vault_assets[i] == k);
                             if untouched > collector_threshold() && listed {
                                 let route: Result<Vec<router::SwapOperation>, String> = h.w.query(
                                     &h.router,
